@@ -252,6 +252,35 @@ def run_room_codecs(part, h, w, cap):
                     part.violation("heyawake:pzpr-reads-different-problem", case, {"url": url, "reference_decoder": [rr, rv]})
                     continue
                 part.add("nontrivial", ("heyawake", url))
+        # one rooms list object, reordered in place between two calls of the module-level encoder (clues follow their rooms)
+        if len(rooms) >= 3:
+            lst = [list(r) for r in rooms]
+            vals = [(7 * i + 1) % 23 for i in range(len(lst))]
+            for step in ("as-is", "reverse", "rotate", "swap", "sort"):
+                if step == "reverse":
+                    lst.reverse(); vals.reverse()
+                elif step == "rotate":
+                    lst.append(lst.pop(0)); vals.append(vals.pop(0))
+                elif step == "swap":
+                    lst[0], lst[-1] = lst[-1], lst[0]; vals[0], vals[-1] = vals[-1], vals[0]
+                elif step == "sort":
+                    order = sorted(range(len(lst)), key=lambda i: sorted(lst[i]))
+                    lst[:] = [lst[i] for i in order]; vals[:] = [vals[i] for i in order]
+                case = dict(base, codec="heyawake", rooms=[list(r) for r in lst], clues=list(vals), inplace_step=step)
+                part.count("evaluations")
+                try:
+                    url = heyawake.serialize_heyawake(h, w, lst, vals)
+                    back = heyawake.deserialize_heyawake(url)
+                except Exception as e:
+                    part.violation("heyawake{in-place}:raises-%s" % type(e).__name__, case, {"exception": repr(e)[:200]})
+                    break
+                want = sorted(zip([sorted(tuple(c) for c in r) for r in lst], vals))
+                ok = isinstance(back, tuple) and len(back) == 3 and back[0] == h and back[1] == w
+                if ok:
+                    ok = sorted(zip([sorted(tuple(c) for c in r) for r in back[2][0]], back[2][1])) == want
+                if not ok:
+                    part.violation("heyawake{in-place}:roundtrip-differs", case, {"url": url, "decoded": repr(back)[:200]})
+                    break
         # rectangular representation of heyawake, when every room is a rectangle
         rects = []
         for r in rooms:
